@@ -18,7 +18,39 @@ pub struct Job {
     pub generated: bool,
 }
 
+/// v2: one generated job in five carries a command-line define (pseudo-file `@defines`, one `name=value` per line):
+/// a constant `zdef` with a literal initialiser is appended to the root file, emitted by a data directive and
+/// overridden from the command line
 pub fn gen_job(t: &mut Tape) -> Job {
+    let mut job = gen_job_plain(t);
+    if crate::engine::gen_version() >= 2 && job.generated && t.chance(1, 5) {
+        let root = job.root.clone();
+        if let Some(f) = job.files.iter_mut().find(|f| f.0 == root) {
+            f.1.extend_from_slice(b"\nzdef = 0x22\n#d8 zdef\n");
+            job.files.push(("@defines".into(), b"zdef=0x55".to_vec()));
+            job.origin = format!("{}+define", job.origin);
+        }
+    }
+    job
+}
+
+pub fn job_defines(job: &Job) -> Vec<(String, sut::DefVal)> {
+    let mut out = Vec::new();
+    for (n, b) in &job.files {
+        if n == "@defines" {
+            for l in String::from_utf8_lossy(b).lines() {
+                if let Some((k, v)) = l.split_once('=') {
+                    let v = v.trim();
+                    let val = if let Some(h) = v.strip_prefix("0x") { i64::from_str_radix(h, 16).unwrap_or(0) } else { v.parse::<i64>().unwrap_or(0) };
+                    out.push((k.trim().to_string(), sut::DefVal::Int(num_bigint::BigInt::from(val))));
+                }
+            }
+        }
+    }
+    out
+}
+
+fn gen_job_plain(t: &mut Tape) -> Job {
     // v2: programs that mix functions, conditional arms, asm blocks, sub-rules, banks, assertions (no model needed
     // by the metamorphic checks that draw jobs from here)
     let w: [u32; 5] = if crate::engine::gen_version() >= 2 { [4, 2, 4, 4, 4] } else { [4, 2, 4, 4, 0] };
@@ -81,7 +113,14 @@ pub fn full_key(o: &AsmOutcome) -> String {
 pub fn run_job(job: &Job, opts: &Opts) -> AsmOutcome {
     let mut fs = MemFs::from_files(&job.files);
     fs.add_std();
-    sut::assemble(&mut fs, &[&job.root], opts)
+    let defines = job_defines(job);
+    if defines.is_empty() {
+        sut::assemble(&mut fs, &[&job.root], opts)
+    } else {
+        let mut o = opts.clone();
+        o.defines.extend(defines);
+        sut::assemble(&mut fs, &[&job.root], &o)
+    }
 }
 
 /// whitespace inside a run of literal characters of an instruction line (input predicate of F9)
